@@ -1446,6 +1446,33 @@ fn small_timestamp_scenario(out: &mut Out) {
     }
 }
 
+/// C14, last sentence, for a node whose clock runs ahead of the host's: the identity of a birth is its
+/// own timestamp, whatever the host's clock reads when it is delivered - the same NBIRTH delivered again
+/// later, or an older one, is ignored and the expected sequence number stays where it was
+fn fast_node_clock_replay_scenario(out: &mut Out) {
+    for ahead in [1u64, 50, 10_000, 1 << 40] {
+        let t0 = 1_000_000u64;
+        let ts = t0 + ahead;
+        let cfg = cfg_default("-", 0, 1);
+        let mut c = Case::begin(out, &cfg, t0);
+        c.out.set_desc("replay fast-node-clock".into());
+        let birth = format!("ev n1 nbirth ts={} bd=3 id=1 ans=ok", ts);
+        c.op(&birth);
+        c.op(&format!("ev n1 ndata seq=1 ts={} id=2 ans=ok", ts));
+        c.op("adv 20");
+        c.op(&birth);
+        c.op(&format!("ev n1 ndata seq=2 ts={} id=3 ans=ok", ts + 1));
+        c.op("adv 5");
+        c.op(&format!("ev n1 nbirth ts={} bd=2 id=4 ans=ok", ts - 1));
+        c.op(&format!("ev n1 ndata seq=3 ts={} id=5 ans=ok", ts + 2));
+        c.op(&format!("adv {}", ahead.min(20_000)));
+        c.op(&birth);
+        c.op(&format!("ev n1 ndata seq=4 ts={} id=6 ans=ok", ts + 3));
+        c.out.nontrivial();
+        c.out.count("fast-node-clock-replay");
+    }
+}
+
 /// C20, last sentence, host side: `AppClient::try_publish_metrics` uses only the client's non-blocking
 /// calls - with a client that parks every blocking call it still returns at once, for node and device
 /// command topics (no model line: a direct check of the real call)
@@ -1521,6 +1548,7 @@ pub fn run(args: &Args, out: &mut Out) -> &'static str {
     wrap_verbs_scenario(out);
     invalid_unknown_node_scenario(out);
     small_timestamp_scenario(out);
+    fast_node_clock_replay_scenario(out);
     app_try_publish_scenario(out);
     // (c) exhaustive soups
     let l = if th { 4 } else { 3 };
